@@ -16,11 +16,12 @@ from ..core import Run
 from ..pool import run_ops
 from ..tlc import read_export, run_tlc, validate_traces
 
-ALL = set(range(1, 61))
+ALL = set(range(1, 66))
 TIERS = {
     "quick": [dict(MaxItems=1, ItemUse=ALL, PrefixUse={1, 2, 3, 4, 5, 6, 7, 8}, QuoteUse={1, 2, 3, 4}, Concat=True),
               dict(MaxItems=2, ItemUse=ALL, PrefixUse={1}, QuoteUse={2, 3}, Concat=False),
-              dict(MaxItems=3, ItemUse={1, 3, 4, 5, 16, 17, 22, 23, 26, 34, 46}, PrefixUse={1, 3}, QuoteUse={2, 4}, Concat=False)],
+              dict(MaxItems=3, ItemUse={1, 3, 4, 5, 16, 17, 22, 23, 26, 34, 46}, PrefixUse={1, 3}, QuoteUse={2, 4}, Concat=False),
+              dict(MaxItems=3, ItemUse={1, 3, 16, 61, 62, 64, 6}, PrefixUse={1, 3}, QuoteUse={1, 2, 3}, Concat=False)],
     "thorough": [dict(MaxItems=2, ItemUse=ALL, PrefixUse={1, 2, 3, 4, 5, 6, 7, 8}, QuoteUse={1, 2, 3, 4}, Concat=False),
                  dict(MaxItems=2, ItemUse=ALL, PrefixUse={1, 4}, QuoteUse={2, 3}, Concat=True),
                  dict(MaxItems=3, ItemUse=ALL, PrefixUse={1}, QuoteUse={2, 4}, Concat=False),
@@ -35,9 +36,10 @@ def generate(run: Run, tier: str) -> list[dict]:
         run_tlc(run, "FString", "INIT Init\nNEXT Next\nINVARIANT Export\nCHECK_DEADLOCK FALSE\n", env={"OUT": f}, name=f"fstring{i}",
                 consts={k: (set(v) if isinstance(v, set) else v) for k, v in c.items()})
         for case in read_export(f):
-            if case["src"] not in seen:
-                seen.add(case["src"])
-                out.append({"src": case["src"], "origin": "fstring.tla", "items": case["items"]})
+            for src in ([case["src"]] + ([case["src"].replace("\n", "\r\n")] if "\n" in case["src"] else [])):   # CRLF twin
+                if src not in seen:
+                    seen.add(src)
+                    out.append({"src": src, "origin": "fstring.tla", "items": case["items"]})
         os.remove(f)
     out.sort(key=lambda c: c["src"])
     return out
